@@ -109,6 +109,28 @@ def check_property(prop, tier):
             if not (w and w.get('found')):
                 line += ' obligation=%s no-failing-input-found' % fl['obligation']
             vio_lines.append(line)
+    # thorough tier extras: sensitivity self-test of the contracts, native cross-check of the replay oracles
+    sens = {}
+    crosscheck = []
+    if tier == 'thorough' and not violations:
+        from . import sensitivity
+        for uid, r in results.items():
+            if r['backend'] == 'verus' and r['state'] == 'ok':
+                try:
+                    sens[uid] = sensitivity.run_unit(uid, units, limit=int(os.environ.get('VERIF_MUTANTS', '60')))
+                except Exception as e:
+                    sens[uid] = dict(unit=uid, error=repr(e))
+        from . import witness as W
+        if W.build_driver():
+            for key, g in sorted(W.GENERATORS.items()):
+                if key[0] in results:
+                    try:
+                        w = g({}, 'thorough')
+                    except Exception as e:
+                        w = dict(found=False, note='generator error %r' % e)
+                    crosscheck.append(dict(unit=key[0], function=key[1], disagreement=bool(w.get('found')), detail=w.get('note') or w.get('input')))
+                    if w.get('found'):
+                        undecided.append((key[0], 'native cross-check: the replay oracle for %s disagrees with the real code on the unchanged contracts: %s / observed %s' % (key[1], w.get('input'), w.get('observed'))))
     n = len(obligations)
     nd = sum(1 for o in obligations if o['status'] == 'discharged')
     all_ok = (n > 0 and nd == n and not undecided and not violations)
@@ -143,6 +165,7 @@ def check_property(prop, tier):
         bounds={uid: r.get('bounds') for uid, r in results.items() if r.get('bounds')},
         undecided=[dict(unit=u, cause=c) for (u, c) in undecided],
         known_findings=[dict(obligation=fl['obligation'], what=e.get('what')) for (fl, e) in known],
+        sensitivity=sens, native_crosscheck=crosscheck,
         strength={'proved': sum(1 for o in obligations if o['status'] == 'discharged' and o.get('strength', 'proved') == 'proved'),
                   'bounded': sum(1 for o in obligations if o['status'] == 'discharged' and o.get('strength') == 'bounded')},
     )
@@ -160,6 +183,12 @@ def check_property(prop, tier):
             prop, r['backend'], uid, r['state'], len(r['obligations']),
             sum(1 for o in r['obligations'] if o['status'] == 'discharged'), r.get('wall_s', 0),
             ('cause: ' + r['cause']) if r.get('cause') else ''))
+    for uid, sr in sorted(sens.items()):
+        if 'error' in sr:
+            print('[%s] sensitivity %s: error %s' % (prop, uid, sr['error']))
+        else:
+            print('[%s] sensitivity %s: %d mutants of the extracted text, %d killed, %d rejected by the front end, %d survivors' % (
+                prop, uid, sr['mutants'], sr['killed'], sr['rejected'], len(sr['survivors'])))
     for (fl, e) in known:
         print('KNOWN-FINDING: property=%s %s (%s at %s)' % (prop, e.get('what'), fl['obligation'], fl.get('repo_loc')))
     for l in vio_lines:
